@@ -1004,3 +1004,120 @@ def nested_lengths(ctx, rep, rule):
                 rep.inconclusive(rule, key, "length operand %s not recognised" % flow.fmt(t0)[:80], body.loc(b.term["line"]))
     if n < 14:
         rep.violation(rule, "floor", "only %d push_tag_len calls in encoders, floor is 14" % n)
+
+
+# ---------------------------------------------------------------------------- C03.mirror / C15.mirror
+MIRROR = [
+    ("snmp::msg::v1::SnmpV1Message", "<snmp::msg::v1::SnmpV1Message<'a> as std::convert::TryFrom<&'a [u8]>>::try_from", "<snmp::msg::v1::SnmpV1Message<'_> as ber::BerEncoder>::push_ber"),
+    ("snmp::msg::v2c::SnmpV2cMessage", "<snmp::msg::v2c::SnmpV2cMessage<'a> as std::convert::TryFrom<&'a [u8]>>::try_from", "<snmp::msg::v2c::SnmpV2cMessage<'_> as ber::BerEncoder>::push_ber"),
+    ("snmp::msg::v3::msg::SnmpV3Message", "<snmp::msg::v3::msg::SnmpV3Message<'a> as std::convert::TryFrom<&'a [u8]>>::try_from", "<snmp::msg::v3::msg::SnmpV3Message<'_> as ber::BerEncoder>::push_ber"),
+    ("snmp::msg::v3::usm::UsmParameters", "<snmp::msg::v3::usm::UsmParameters<'a> as std::convert::TryFrom<&'a [u8]>>::try_from", "<snmp::msg::v3::usm::UsmParameters<'_> as ber::BerEncoder>::push_ber"),
+    ("snmp::msg::v3::scoped::ScopedPdu", "<snmp::msg::v3::scoped::ScopedPdu<'a> as std::convert::TryFrom<&'a [u8]>>::try_from", "<snmp::msg::v3::scoped::ScopedPdu<'_> as ber::BerEncoder>::push_ber"),
+    ("snmp::get::SnmpGet", "<snmp::get::SnmpGet<'a> as std::convert::TryFrom<&'a [u8]>>::try_from", "<snmp::get::SnmpGet<'_> as ber::BerEncoder>::push_ber"),
+    ("snmp::getbulk::SnmpGetBulk", "<snmp::getbulk::SnmpGetBulk<'a> as std::convert::TryFrom<&'a [u8]>>::try_from", "<snmp::getbulk::SnmpGetBulk<'_> as ber::BerEncoder>::push_ber"),
+]
+
+
+def _is_from_ber(t):
+    return t[0] == "call" and (t[1] or "").endswith("::from_ber")
+
+
+def _head_parse(t):
+    """First from_ber call reached from t without entering another from_ber's arguments, with the projection kind
+    ('rest' = the remainder after the element, 'inner' = the contents of the element's value, 'value')."""
+    names = []
+    x = t
+    while True:
+        if x[0] == "f":
+            names.append(x[2])
+            x = x[1]
+        elif x[0] == "dc":
+            x = x[1]
+        elif x[0] in ("cast",):
+            x = x[1]
+        elif x[0] == "idx":
+            x = x[1]
+        elif x[0] == "bin":
+            x = x[2] if x[2][0] != "const" else x[3]
+        elif x[0] == "un":
+            x = x[2]
+        elif x[0] == "call" and not _is_from_ber(x):
+            if not x[2]:
+                return None, None
+            x = x[2][0]
+            names = []
+        elif _is_from_ber(x):
+            names.reverse()
+            # names are projections applied to the Continue payload: ['0','0'] rest, ['0','1',...] value / inner
+            if names[:2] == ["0", "0"]:
+                return "rest", x
+            if names[:2] == ["0", "1"] and len(names) >= 3:
+                return "inner", x
+            return "value", x
+        else:
+            return None, None
+
+
+def _wire_pos(call, depth=0):
+    if depth > 40 or not call[2]:
+        return None
+    arg = call[2][0]
+    if arg[0] == "arg":
+        return (0,)
+    kind, parent = _head_parse(arg)
+    if parent is None:
+        return None
+    pp = _wire_pos(parent, depth + 1)
+    if pp is None:
+        return None
+    if kind == "rest":
+        return pp[:-1] + (pp[-1] + 1,)
+    return pp + (0,)
+
+
+def layout_mirror(ctx, rep, rule):
+    """For every message / PDU struct: the order in which the decoder reads the fields from the wire equals the reverse of
+    the order in which the encoder pushes them into the back-to-front buffer."""
+    facts = ctx.facts
+    for adt, decn, encn in MIRROR:
+        dec, enc = facts.body(decn), facts.body(encn)
+        short = adt.split("::")[-1]
+        if dec is None or enc is None:
+            rep.missing(rule, "%s: try_from / push_ber" % short)
+            continue
+        dp = flow.Prov(dec)
+        fields = {}
+        for (bi, st, f, vn) in flow.aggregate_inits(dec, adt):
+            for name, op in f.items():
+                t = dp.operand(op)
+                kind, call = _head_parse(t)
+                if call is None:
+                    continue
+                pos = _wire_pos(call)
+                if pos is not None:
+                    fields[name] = pos
+        dec_order = [n for n, _ in sorted(fields.items(), key=lambda x: x[1])]
+        ep = flow.Prov(enc)
+        order = cfg.rpo(enc)
+        seen = []
+        for bi in order:
+            t = enc.blocks[bi].term
+            if not t or t["k"] != "call":
+                continue
+            cp = callee_path(t) or ""
+            if not ("Buffer::push" in cp or cp.endswith("::push_ber") or (t["callee"].get("path") or "").endswith("BerEncoder::push_ber")):
+                continue
+            for a in t["args"]:
+                for sub in flow.subterms(ep.operand(a)):
+                    pth = fp(sub)
+                    if pth and pth[0] == "arg1" and len(pth) >= 2 and pth[1] not in seen:
+                        seen.append(pth[1])
+        enc_order = list(reversed(seen))
+        common = [n for n in dec_order if n in enc_order]
+        enc_common = [n for n in enc_order if n in common]
+        key = "%s|field order" % short
+        if len(common) < 2:
+            rep.inconclusive(rule, key, "fewer than two fields recognised on both sides (decoder %s, encoder %s)" % (dec_order, enc_order), enc.loc())
+            continue
+        rep.check(rule, key, common == enc_common, "wire order %s on both sides" % common,
+                  "the decoder reads %s but the encoder emits %s: the two are not inverses of each other" % (common, enc_common), enc.loc(), obligation=True)
